@@ -864,6 +864,7 @@ func runC15(c *Ctx) {
 		"C15.e every flag set by handleCommand is tested and cleared before it is tested again; quit is tested after every event before the loop blocks again",
 		"C15.f every command returned by a handler reaches handleCommand exactly once before the next dispatch or normal return",
 		"C15.g containsPoint is the half-open rectangle test; hitTest lists a widget before its descendants, recurses only into children containing the point with child-relative coordinates",
+		"C15.i focus path: childHasFocus appends the widget of every surface on the way back from the focused one; updatePath appends the application's root widget unless the path already ends in it (f.root == root.Widget and the path is non-empty), never twice, and reverses the path to root-first order afterwards",
 	}
 	c.NotDec = []string{
 		"routing over arbitrary trees and histories (focus changed by a command in mid-dispatch, path recomputation after a frame, overlapping siblings in the hit list)",
@@ -877,6 +878,7 @@ func runC15(c *Ctx) {
 	c.expect("C15.e", 12)
 	c.expect("C15.f", 11)
 	c.expect("C15.g", 12)
+	c.expect("C15.i", 7)
 
 	// helper extraction is undone first: the rules below look at the named functions with their helpers inlined
 	c15Normalise(c, []string{"vxfw"}, c15Anchors)
@@ -908,7 +910,7 @@ func runC15(c *Ctx) {
 		}
 	}
 	e.app, e.fh, e.mh, e.hit = c15StructFields(pk, "App"), c15StructFields(pk, "focusHandler"), c15StructFields(pk, "mouseHandler"), c15StructFields(pk, "hitResult")
-	if hc := c.P.Func("vxfw.(*App).handleCommand"); hc != nil {
+	if hc := c15Func(c, "vxfw.(*App).handleCommand"); hc != nil {
 		e.handleCommand = hc.Obj
 	}
 	missing := []string{}
@@ -986,6 +988,7 @@ func runC15(c *Ctx) {
 	e.ruleE()
 	e.ruleF()
 	e.ruleG()
+	e.ruleI()
 	c15Dump(c)
 }
 
@@ -994,7 +997,7 @@ func runC15(c *Ctx) {
 var c15Anchors = map[string]bool{
 	"handleEvent": true, "handleCommand": true, "focusWidget": true, "update": true, "mouseExit": true, "hitTest": true,
 	"containsPoint": true, "updatePath": true, "childHasFocus": true, "layout": true, "render": true, "debugPrintWidget": true,
-	"drawSoftwrap": true, "findContainerSize": true, "firstLineSegment": true, "cells": true,
+	"drawSoftwrap": true, "findContainerSize": true, "firstLineSegment": true,
 }
 
 // c15Dump lists every obligation when VXCHECK_DUMP is set (for confirming instance counts by reading).
@@ -1061,7 +1064,7 @@ func (e *c15Env) flagTest(g *FG, b *cfg.Block, flag *types.Var) (trueSucc int, o
 
 func (e *c15Env) ruleA(name string, list *types.Var, mouse bool) {
 	c := e.c
-	fi := c.P.Func(name)
+	fi := c15Func(c, name)
 	if fi == nil {
 		c.undecided("C15.a", name, 0, "function not found")
 		return
@@ -1479,7 +1482,7 @@ func (e *c15Env) ruleA(name string, list *types.Var, mouse bool) {
 // ruleAMouse: the hit list is recomputed for this event's position before routing.
 func (e *c15Env) ruleAMouse(name string, g *FG, fi *FuncInfo, recvObj, evObj types.Object, firstDispatch Loc) {
 	c, info := e.c, e.info
-	upd := c.P.Func("vxfw.(*mouseHandler).update")
+	upd := c15Func(c, "vxfw.(*mouseHandler).update")
 	if upd == nil {
 		c.undecided("C15.a", name+"/hit list refreshed", fi.Decl.Pos(), "mouseHandler.update not found")
 		return
@@ -1537,7 +1540,7 @@ var c15Effects = map[string]c15Effect{
 func (e *c15Env) ruleB() {
 	c, info := e.c, e.info
 	name := "vxfw.(*App).handleCommand"
-	fi := c.P.Func(name)
+	fi := c15Func(c, name)
 	cmdTN, _ := e.pk.Types.Scope().Lookup("Command").(*types.TypeName)
 	if fi == nil || cmdTN == nil {
 		c.undecided("C15.b", name, 0, "handleCommand or type Command not found")
@@ -1895,7 +1898,7 @@ func (e *c15Env) batchCase(name string, tn *types.TypeName, cc *ast.CaseClause, 
 func (e *c15Env) ruleC() {
 	c, info := e.c, e.info
 	name := "vxfw.(*focusHandler).focusWidget"
-	fi := c.P.Func(name)
+	fi := c15Func(c, name)
 	if fi == nil {
 		c.undecided("C15.c", name, 0, "function not found")
 		return
@@ -2044,7 +2047,7 @@ func (e *c15Env) ruleD() {
 					c.bad("C15.d", key, call.Pos(), "%s is sent from %s, which is not a method of mouseHandler and does not record it in lastHits: the next hit-test diff sends the same notification again (enter/leave stop alternating)", kind, encl)
 					return true
 				}
-				fi := c.P.Func(encl)
+				fi := c15Func(c, encl)
 				g := c.P.Graph(fi)
 				loc, found := g.Locate(call)
 				if !found {
@@ -2170,7 +2173,7 @@ func (e *c15Env) diffLoop(g *FG, defs *c15Defs, call *ast.CallExpr) (a, b ast.Ex
 func (e *c15Env) ruleDUpdate() {
 	c, info := e.c, e.info
 	name := "vxfw.(*mouseHandler).update"
-	fi := c.P.Func(name)
+	fi := c15Func(c, name)
 	if fi == nil {
 		c.undecided("C15.d", name, 0, "function not found")
 		return
@@ -2238,8 +2241,8 @@ func (e *c15Env) ruleDUpdate() {
 		}
 	}
 	// hit testing only when the pointer is inside the root surface
-	ht := c.P.Func("vxfw.hitTest")
-	cp := c.P.Func("vxfw.(*SubSurface).containsPoint")
+	ht := c15Func(c, "vxfw.hitTest")
+	cp := c15Func(c, "vxfw.(*SubSurface).containsPoint")
 	if ht == nil || cp == nil {
 		c.undecided("C15.d", name+"/hit test guarded by the root surface", fi.Decl.Pos(), "hitTest or containsPoint not found")
 		return
@@ -2298,7 +2301,7 @@ func (e *c15Env) ruleDUpdate() {
 func (e *c15Env) ruleDExit() {
 	c, info := e.c, e.info
 	name := "vxfw.(*mouseHandler).mouseExit"
-	fi := c.P.Func(name)
+	fi := c15Func(c, name)
 	if fi == nil {
 		c.undecided("C15.d", name, 0, "function not found")
 		return
@@ -2359,8 +2362,8 @@ func (e *c15Env) ruleDExit() {
 func (e *c15Env) ruleDRun() {
 	c, info := e.c, e.info
 	name := "vxfw.(*App).Run"
-	fi := c.P.Func(name)
-	me := c.P.Func("vxfw.(*mouseHandler).mouseExit")
+	fi := c15Func(c, name)
+	me := c15Func(c, "vxfw.(*mouseHandler).mouseExit")
 	if fi == nil || me == nil {
 		c.undecided("C15.d", name, 0, "Run or mouseExit not found")
 		return
@@ -2516,7 +2519,7 @@ func (e *c15Env) ruleE() {
 	}
 	// quit is tested after every event, before the loop blocks again
 	name := "vxfw.(*App).Run"
-	fi := c.P.Func(name)
+	fi := c15Func(c, name)
 	quit := e.app["shouldQuit"]
 	if fi == nil || quit == nil {
 		c.undecided("C15.e", name+"/quit tested after every event", 0, "Run or App.shouldQuit not found")
@@ -2721,7 +2724,7 @@ func (e *c15Env) ruleG() {
 	c, info := e.c, e.info
 	// containsPoint
 	name := "vxfw.(*SubSurface).containsPoint"
-	cp := c.P.Func(name)
+	cp := c15Func(c, name)
 	if cp == nil {
 		c.undecided("C15.g", name, 0, "function not found")
 	} else {
@@ -2788,7 +2791,7 @@ func (e *c15Env) ruleG() {
 	}
 	// hitTest
 	name = "vxfw.hitTest"
-	ht := c.P.Func(name)
+	ht := c15Func(c, name)
 	if ht == nil || cp == nil {
 		c.undecided("C15.g", name, 0, "function not found")
 		return
@@ -3053,10 +3056,21 @@ func (it *c15Iter) isElem(e ast.Expr) bool {
 	if e == nil {
 		return false
 	}
-	if it.defs != nil {
-		e = it.defs.resolve(e)
+	for {
+		if it.defs != nil {
+			e = it.defs.resolve(e)
+		}
+		e = unparen(e)
+		if u, ok := e.(*ast.UnaryExpr); ok && u.Op == token.AND {
+			e = u.X
+			continue
+		}
+		if st, ok := e.(*ast.StarExpr); ok {
+			e = st.X
+			continue
+		}
+		break
 	}
-	e = unparen(e)
 	if id, ok := e.(*ast.Ident); ok {
 		return it.val != nil && it.info.ObjectOf(id) == it.val
 	}
@@ -3628,4 +3642,261 @@ func c15Simplify(f *c15F) *c15F {
 		return &c15F{op: f.op, a: a, b: b}
 	}
 	return f
+}
+
+// c15Func looks a function up by its qualified name, whatever its receiver is (pointer or value).
+func c15Func(c *Ctx, name string) *FuncInfo {
+	if fi := c.P.Func(name); fi != nil {
+		return fi
+	}
+	if i := strings.Index(name, ".(*"); i >= 0 { // pkg.(*T).m -> pkg.T.m
+		j := strings.Index(name[i:], ")")
+		if j > 0 {
+			return c.P.Func(name[:i+1] + name[i+3:i+j] + name[i+j+1:])
+		}
+		return nil
+	}
+	// pkg.T.m -> pkg.(*T).m   (pkg may contain slashes but no dots)
+	parts := strings.Split(name, ".")
+	if len(parts) == 3 {
+		return c.P.Func(parts[0] + ".(*" + parts[1] + ")." + parts[2])
+	}
+	return nil
+}
+
+// ---------------------------------------------------------------------------
+// C15.i the focus path runs from the application's root widget to the focused widget
+
+// c15LinRes is c15LinOf with single-definition locals replaced by their definitions.
+func c15LinRes(info *types.Info, defs *c15Defs, e ast.Expr) c15Lin {
+	l := c15LinOf(info, e)
+	for depth := 0; depth < 4; depth++ {
+		changed := false
+		for o, d := range defs.def {
+			if d == nil || defs.count[o] != 1 {
+				continue
+			}
+			id := fmt.Sprintf("%p", o)
+			if co, ok := l.co[id]; ok && isIntegerExpr(info, d) {
+				sub := c15LinOf(info, d)
+				rest := c15Lin{co: map[string]int64{}, k: l.k}
+				for t, v := range l.co {
+					if t != id {
+						rest.co[t] = v
+					}
+				}
+				l = rest.add(sub, co)
+				changed = true
+			}
+		}
+		if !changed {
+			break
+		}
+	}
+	return l
+}
+
+func (e *c15Env) ruleI() {
+	c, info := e.c, e.info
+	// ---- childHasFocus
+	name := "vxfw.(*focusHandler).childHasFocus"
+	if fi := c15Func(c, name); fi == nil {
+		c.undecided("C15.i", name, 0, "function not found")
+	} else {
+		g := c.P.Graph(fi)
+		fd := fi.Decl
+		defs := c15DefsOf(info, fd.Body)
+		var recvObj, sObj types.Object
+		if fd.Recv != nil && len(fd.Recv.List) == 1 && len(fd.Recv.List[0].Names) == 1 {
+			recvObj = info.Defs[fd.Recv.List[0].Names[0]]
+		}
+		for _, f := range fd.Type.Params.List {
+			for _, n := range f.Names {
+				if c15IsNamed(info.TypeOf(n), c15VxfwPath, "Surface") {
+					sObj = info.Defs[n]
+				}
+			}
+		}
+		if recvObj == nil || sObj == nil {
+			c.undecided("C15.i", name+"/signature", fd.Pos(), "receiver or surface parameter not recognised")
+		} else {
+			isAppendWidget := func(n ast.Node) bool {
+				as, ok := n.(*ast.AssignStmt)
+				if !ok || len(as.Lhs) != 1 || len(as.Rhs) != 1 || c15Field(info, as.Lhs[0]) != e.fh["path"] || rootObj(info, as.Lhs[0]) != recvObj {
+					return false
+				}
+				cl, ok := unparen(as.Rhs[0]).(*ast.CallExpr)
+				if !ok || len(cl.Args) != 2 || c15Field(info, cl.Args[0]) != e.fh["path"] {
+					return false
+				}
+				if id, ok := cl.Fun.(*ast.Ident); !ok || id.Name != "append" {
+					return false
+				}
+				sel, ok := unparen(defs.resolve(cl.Args[1])).(*ast.SelectorExpr)
+				return ok && sel.Sel.Name == "Widget" && rootObj(info, sel.X) == sObj
+			}
+			nTrue := 0
+			for _, h := range g.Find(func(n ast.Node) bool { _, ok := n.(*ast.ReturnStmt); return ok }) {
+				rs := h.Node.(*ast.ReturnStmt)
+				if len(rs.Results) != 1 {
+					continue
+				}
+				if tv, ok := info.Types[rs.Results[0]]; ok && tv.Value != nil && tv.Value.String() == "false" {
+					continue
+				}
+				nTrue++
+				c.check(g.MustPrecede(isAppendWidget, h.Loc), "C15.i", name+"/a surface on the way to the focused widget joins the path", rs.Pos(),
+					"every `found` return is preceded by path = append(path, s.Widget)", "childHasFocus can report success without appending this surface's widget to the path: an ancestor of the focused widget is left out of the path, so it neither captures nor receives the bubbled event")
+			}
+			if nTrue == 0 {
+				c.bad("C15.i", name+"/a surface on the way to the focused widget joins the path", fd.Pos(), "childHasFocus never reports success")
+			}
+			// recursion over every child's surface
+			recs := g.Calls(func(fn *types.Func, call *ast.CallExpr) bool { return fn == fi.Obj })
+			okRec := false
+			for _, r := range recs {
+				call := r.Node.(*ast.CallExpr)
+				if lp := c15LoopOf(e.parents, call); lp != nil && len(call.Args) == 1 {
+					it := c15IterOf(info, defs, lp)
+					if it == nil || !it.full {
+						continue
+					}
+					xs, _ := unparen(it.x).(*ast.SelectorExpr)
+					a0, _ := unparen(defs.resolve(call.Args[0])).(*ast.SelectorExpr)
+					if xs != nil && xs.Sel.Name == "Children" && rootObj(info, it.x) == sObj && a0 != nil && a0.Sel.Name == "Surface" && it.isElem(a0.X) {
+						okRec = true
+					}
+				}
+			}
+			c.check(okRec, "C15.i", name+"/every child surface is searched", fd.Pos(), "recurses into <child>.Surface for each of s.Children", "childHasFocus does not search every child surface: a focused widget below a skipped child is never found and the path collapses to the root")
+		}
+	}
+	// ---- updatePath
+	name = "vxfw.(*focusHandler).updatePath"
+	fi := c15Func(c, name)
+	chf := c15Func(c, "vxfw.(*focusHandler).childHasFocus")
+	if fi == nil || chf == nil {
+		c.undecided("C15.i", name, 0, "function not found")
+		return
+	}
+	g := c.P.Graph(fi)
+	fd := fi.Decl
+	defs := c15DefsOf(info, fd.Body)
+	var recvObj, rootP types.Object
+	if fd.Recv != nil && len(fd.Recv.List) == 1 && len(fd.Recv.List[0].Names) == 1 {
+		recvObj = info.Defs[fd.Recv.List[0].Names[0]]
+	}
+	for _, f := range fd.Type.Params.List {
+		for _, n := range f.Names {
+			if c15IsNamed(info.TypeOf(n), c15VxfwPath, "Surface") {
+				rootP = info.Defs[n]
+			}
+		}
+	}
+	if recvObj == nil || rootP == nil || e.fh["root"] == nil {
+		c.undecided("C15.i", name+"/signature", fd.Pos(), "receiver, surface parameter or focusHandler.root not recognised")
+		return
+	}
+	isPath := func(x ast.Expr) bool { return c15Field(info, x) == e.fh["path"] && rootObj(info, x) == recvObj }
+	var appends []Hit
+	for _, h := range g.Find(func(n ast.Node) bool {
+		as, ok := n.(*ast.AssignStmt)
+		if !ok || len(as.Lhs) != 1 || len(as.Rhs) != 1 || !isPath(as.Lhs[0]) {
+			return false
+		}
+		cl, ok := unparen(as.Rhs[0]).(*ast.CallExpr)
+		if !ok || len(cl.Args) != 2 || !isPath(cl.Args[0]) {
+			return false
+		}
+		if id, ok := cl.Fun.(*ast.Ident); !ok || id.Name != "append" {
+			return false
+		}
+		a := unparen(defs.resolve(cl.Args[1]))
+		return c15Field(info, a) == e.fh["root"] && rootObj(info, a) == recvObj
+	}) {
+		appends = append(appends, h)
+	}
+	if len(appends) != 1 {
+		c.bad("C15.i", name+"/the application's root widget joins the path", fd.Pos(), "expected one `path = append(path, f.root)`, found %d: the widget passed to Run is not (or not exactly once) made the outermost ancestor of the focus path", len(appends))
+		return
+	}
+	ap := appends[0]
+	searches := g.Calls(func(fn *types.Func, call *ast.CallExpr) bool { return fn == chf.Obj })
+	okSearch := len(searches) == 1
+	if okSearch {
+		call := searches[0].Node.(*ast.CallExpr)
+		id, isID := unparen(call.Args[0]).(*ast.Ident)
+		okSearch = len(call.Args) == 1 && isID && info.ObjectOf(id) == rootP && g.MustPrecede(func(n ast.Node) bool { return n == ast.Node(call) }, ap.Loc)
+	}
+	c.check(okSearch, "C15.i", name+"/the path is rebuilt from the frame first", fd.Pos(), "childHasFocus(root) runs before the root widget is added", "the focused widget is not searched in the new frame before the root widget is added")
+	gs := c15GuardsAt(g, ap.Loc)
+	ids := []string{fmt.Sprintf("%p.root", recvObj), fmt.Sprintf("%p.Widget", rootP)}
+	sort.Strings(ids)
+	eqID := "eq:" + ids[0] + "|" + ids[1]
+	lenPath := c15TermLin("len("+fmt.Sprintf("%p", recvObj)+".path)", "len("+recvObj.Name()+".path)", true)
+	allHold := func(assume []c15Lin, op map[string]bool) bool {
+		for _, gd := range gs {
+			v := c15Eval(gd.f, assume, op)
+			if !((gd.pol && v == 1) || (!gd.pol && v == -1)) {
+				return false
+			}
+		}
+		return true
+	}
+	someFails := func(assume []c15Lin, op map[string]bool) bool {
+		for _, gd := range gs {
+			v := c15Eval(gd.f, assume, op)
+			if (gd.pol && v == -1) || (!gd.pol && v == 1) {
+				return true
+			}
+		}
+		return false
+	}
+	gstr := c15GuardsString(gs)
+	c.check(allHold(nil, map[string]bool{eqID: false}), "C15.i", name+"/root widget added when it does not own the root surface", ap.Node.Pos(),
+		"whenever f.root != root.Widget the append is reached (guards: "+gstr+")",
+		"when the root widget's Draw hands back a surface owned by another widget (f.root != root.Widget) the guards in force ("+gstr+") can skip `path = append(path, f.root)`: the widget passed to Run is left out of the focus path and neither captures nor receives the bubbled event")
+	c.check(allHold([]c15Lin{lenPath}, nil), "C15.i", name+"/root widget added when the focused widget is not in the frame", ap.Node.Pos(),
+		"whenever the path is empty the append is reached (guards: "+gstr+")",
+		"with an empty path (focused widget not found in the frame) the guards in force ("+gstr+") can skip `path = append(path, f.root)`: events have no path at all")
+	c.check(someFails([]c15Lin{lenPath.neg().plus(1)}, map[string]bool{eqID: true}), "C15.i", name+"/root widget not added twice", ap.Node.Pos(),
+		"when the path already ends in the root widget the append is skipped (guards: "+gstr+")",
+		"the root widget is appended although the path already ends in it (f.root == root.Widget, path non-empty): it captures and bubbles every event twice")
+	// reversal to root-first order, after the append
+	var swaps []Hit
+	for _, h := range g.Find(func(n ast.Node) bool {
+		as, ok := n.(*ast.AssignStmt)
+		if !ok || len(as.Lhs) != 2 || len(as.Rhs) != 2 || as.Tok != token.ASSIGN {
+			return false
+		}
+		var idx [4]ast.Expr
+		for i, x := range []ast.Expr{as.Lhs[0], as.Lhs[1], as.Rhs[0], as.Rhs[1]} {
+			ix, ok := unparen(x).(*ast.IndexExpr)
+			if !ok || !isPath(ix.X) {
+				return false
+			}
+			idx[i] = ix.Index
+		}
+		a, b := c15LinRes(info, defs, idx[0]), c15LinRes(info, defs, idx[1])
+		ra, rb := c15LinRes(info, defs, idx[2]), c15LinRes(info, defs, idx[3])
+		return a.canon() == rb.canon() && b.canon() == ra.canon() && a.add(b, 1).canon() == lenPath.plus(-1).canon()
+	}) {
+		swaps = append(swaps, h)
+	}
+	okRev := len(swaps) == 1 && len(c15EnclosingLoops(e.parents, swaps[0].Node)) == 1
+	if okRev {
+		// i runs over the first half: i < len/2 (any spelling whose bound is len(path)/2)
+		lp, _ := c15LoopOf(e.parents, swaps[0].Node).(*ast.ForStmt)
+		okRev = lp != nil && lp.Cond != nil && containsNode(lp.Cond, func(n ast.Node) bool {
+			be, ok := n.(*ast.BinaryExpr)
+			if !ok || be.Op != token.QUO {
+				return false
+			}
+			v, isC := constInt(info, be.Y)
+			return isC && v == 2 && c15LinRes(info, defs, be.X).canon() == lenPath.canon()
+		})
+		okRev = okRev && !g.ReachesAvoiding(swaps[0].Loc, ap.Loc, nil)
+	}
+	c.check(okRev, "C15.i", name+"/path reversed to root-first order after the root was added", fd.Pos(), "path[i] <-> path[len-1-i] for the first half, after the append",
+		"the path built target-first by childHasFocus is not (exactly once, after the root widget was added) reversed: capture would start at the focused widget and bubbling at the root")
 }
